@@ -160,8 +160,11 @@ def impl_run(case):
                 "live_with_pipes": sum(1 for _, ps in live.values() if ps),
                 "live": len(live)}
 
+    graveyard = {}        # pid -> Process object that has been stopped (kill / reap): for the late remove_redirections
+
     def close_worker(pid, with_remove):
         proc, ps = live.pop(pid)
+        graveyard[pid] = proc
         outs = []
         st = {}
         for p in ps.values():            # the worker is dead: its write ends are gone
@@ -199,6 +202,24 @@ def impl_run(case):
         st["terminated"] = proc._worker.terminated
         return outs, st
 
+    # every read the Redirector does goes through this proxy of `os` in its module namespace: a read on a descriptor that has
+    # nothing queued while its writer is open would not return on the blocking pipe of a real worker
+    import circus.stream.redirector as _redmod
+    would_block = []
+
+    class _OsProxy(object):
+        def __getattr__(self, name):
+            return getattr(os, name)
+
+        def read(self, fd, n):
+            try:
+                if _avail(fd) == 0 and any(p.rfd == fd and p.wfd is not None and not p.rfile.closed for p in allpipes):
+                    would_block.append(fd - base)
+            except OSError:
+                pass
+            return os.read(fd, n)
+    _saved_os = _redmod.os
+    _redmod.os = _OsProxy()
     try:
         for op in case["ops"]:
             k = op[0]
@@ -311,6 +332,15 @@ def impl_run(case):
                     o, s2 = close_worker(pid, with_remove=(k == "kill"))
                     outs += o
                     st.update(s2)
+            elif k == "lr":
+                # kill_process wakes from its nap after the periodic check has reaped the worker under it:
+                # remove_redirections(process) on the stopped Process object (its pipes are closed file objects)
+                pid = op[1]
+                if pid in live:
+                    raise Infra("late remove for a live pid (generator bug)")
+                if pid in graveyard:
+                    red.remove_redirections(graveyard[pid])
+                    outs += drain_log()
             elif k == "chg":
                 # `set <watcher> stdout_stream.<key> <val>`: Watcher._reload_stream builds a new stream, hands it to
                 # Redirector.change_stream and closes the old one
@@ -331,6 +361,8 @@ def impl_run(case):
                                     if p_.wfd is not None and red.running and p_.rfd not in loop.handlers]
             st["stale_stream"] = list(stale)
             del stale[:]
+            st["would_block"] = list(would_block)
+            del would_block[:]
             st["records"] = [[w, dm.get("name"), dm.get("pid"), list(dm.get("data", b""))] for w, dm in records[nrec:]]
             st.update(sizes())
             st["peak_live"] = peak_live
@@ -361,6 +393,7 @@ def impl_run(case):
         exc = {"harness_exception": "%s: %s" % (type(e).__name__, e), "tb": traceback.format_exc()[-1200:]}
         fin = None
     finally:
+        _redmod.os = _saved_os
         for p in allpipes:
             if p.wfd is not None:
                 try:
@@ -406,7 +439,7 @@ def model_line(case):
             toks += ["rd", str(op[1])]
         elif k == "cw":
             toks += ["cw", str(op[1]), op[2]]
-        elif k in ("kill", "reap"):
+        elif k in ("kill", "reap", "lr"):
             toks += [k, str(op[1])]
         else:
             toks.append(k)
@@ -460,6 +493,11 @@ def oracle(case, obs):
                 fail("read-but-not-delivered", "%d bytes left the pipe, %d were delivered" % (taken, got), j)
             if st["pre_avail"] > 0 and got == 0 and case["buffer"] > 0:
                 fail("readable-not-read", "a readable pipe was not read", j)
+            if st["pre_avail"] > 0 and st.get("would_block"):
+                # the harness' pipes are non-blocking so that it survives this; a real worker's pipe is a blocking descriptor
+                fail("read-would-block", "one readiness event with %d byte(s) queued, and the handler read again once they "
+                     "were gone while the writer is still open: on the blocking pipe of a real worker this read stalls the "
+                     "daemon's event loop until the worker writes again or exits" % st["pre_avail"], j)
             if st["pre_avail"] == 0 and st["writer_closed"] and case["buffer"] > 0:
                 # the EOF read
                 if any(st["still_registered"]):
@@ -599,9 +637,14 @@ def gen_case(rng, nops, maxw=4, disciplined=None, buffer=None):
             ops.extend(["rd", fd] for _ in range(reads))
             w["pend"][ch] = 0
 
+    dead = []             # pids that have been killed / reaped: candidates for a late remove_redirections
     while len(ops) < nops:
         r = rng.random()
         pids = sorted(sim.live)
+        if dead and rng.random() < 0.06:
+            # a kill_process that napped while the periodic check reaped its worker (and maybe a successor took the numbers)
+            ops.append(["lr", rng.choice(dead)])
+            continue
         if (not pids or (r < 0.12 and len(pids) < maxw)):
             po, pe = (True, True) if both else rng.choice([(True, True), (True, False), (False, True), (False, False)])
             sim.spawn(po, pe)
@@ -640,12 +683,14 @@ def gen_case(rng, nops, maxw=4, disciplined=None, buffer=None):
                 drain(pid, to_eof=False)
             ops.append(["kill", pid])
             sim.drop(pid)
+            dead.append(pid)
         elif r < 0.96:
             pid = rng.choice(pids)
             if disciplined:
                 drain(pid, to_eof=True)
             ops.append(["reap", pid])
             sim.drop(pid)
+            dead.append(pid)
         elif r < 0.975 and not disciplined:
             ops.append(["stop"])
         elif r < 0.99:
@@ -691,6 +736,15 @@ def gen_generations(rng, gens, disciplined, maxw=3):
         sim.spawn(True, True)
         ops.append(["start"])          # Watcher.spawn_process calls start() before every spawn
         ops.append(["sp", 1, 1])
+        if how == "reap" and rng.random() < 0.4:
+            # the kill_process that was napping on the reaped worker wakes up now that the successor has its numbers
+            ops.append(["lr", pid])
+            new = max(sim.live)
+            d2 = _chunk(rng, buf)
+            ops.append(["wr", new, "o", d2])
+            sim.live[new]["pend"]["o"] += len(d2)
+            ops.extend(["rd", sim.live[new]["fd"]["o"]] for _ in range(-(-len(d2) // buf)))
+            sim.live[new]["pend"]["o"] = 0
         if sib in sim.live:
             for ch, fd in sim.live[sib]["fd"].items():
                 ops.append(["rd", fd])
